@@ -143,6 +143,11 @@ def rule_matching(ctx: Ctx) -> None:
         if ok:
             cnt[si] += 1
     ctx.require(cnt[1] >= 1 and cnt[2] >= 1, f"_get_object_results_for_tlr: pairing sites per stage {cnt}")
+    # the uuid-first option must reach the label stage
+    flags = {ib.facts.get("truthy:uuid_matching_first") for si, o, inner, ib in sites if si == 1 and any(a.recv == "object_results" for a in appends(ib))}
+    ctx.check({True, False} <= flags, "C11-match-guard", "_get_object_results_for_tlr", "stage1:uuid-first-option",
+              f"the label stage pairs objects without consulting the caller's uuid_matching_first option (paths seen for the flag: {sorted(map(str, flags))}): with uuid-first requested, equal label alone must not pair two traffic lights",
+              fi=ft, expected="uuid equality required when uuid_matching_first is true", found=f"flag values on pairing paths: {sorted(map(str, flags))}")
     # stage 1 must not pair by uuid alone / stage 2 not by label: done via guards. Inputs untouched:
     ef = Effects(ctx.index, ctx.resolver)
     ef.solve()
